@@ -56,7 +56,11 @@ def replay_kani(pid, res, work, log):
     ovdir = os.path.join(work, "ov")
     gen = os.path.join(work, "gen")
     log("  replaying %s: extracting concrete values ..." % inst.name)
-    r2 = K.run_instance(inst, ovdir, gen, work, os.path.join(work, "logs"), playback=True)
+    import copy
+    pinst = copy.copy(inst)
+    pinst.mem_gb = max(24, int(inst.mem_gb * 2.5))      # trace generation needs far more memory than the verdict
+    pinst.timeout_s = max(3600, inst.timeout_s * 3)
+    r2 = K.run_instance(pinst, ovdir, gen, work, os.path.join(work, "logs"), playback=True)
     txt = getattr(r2, "text", "")
     shutil.rmtree(getattr(r2, "target_dir", "/nonexistent"), ignore_errors=True)
     m = PLAYBACK_RE.search(txt)
